@@ -41,7 +41,7 @@ type c09X struct {
 	NoopOp   int
 	Slow     bool // server half: ReadTimeout 10 s and a client that takes 6 s over every line of an exchange - slow, never late
 	Partial  bool // a stalled response line was sent in two parts, the first before the silence
-	CliFault int // client half: the exchange is broken off: 1 Server.Close, 2 failing reply writes, 3 a reply write blocked for ever
+	CliFault int  // client half: the exchange is broken off: 1 Server.Close, 2 failing reply writes, 3 a reply write blocked for ever
 }
 
 func b64(b []byte) string { return base64.StdEncoding.EncodeToString(b) }
